@@ -63,10 +63,19 @@ def gen(tier, seed):
             d = rnd.choice((1, 2))
             A, B = curve_json(rnd, U, p, d, rat_a), curve_json(rnd, V, q, d, rat_b)
         if op == "interval":
-            B["U"] = fsl([F(*map(int, x.split("/"))) + F(1, 2) for x in B["U"]])
-            op = rnd.choice(["add", "sub", "mul", "div", "matmul"])
-            if op == "matmul" and A["scalar"]:
-                op = "add"
+            Ub = [F(*map(int, x.split("/"))) for x in B["U"]]
+            how = rnd.choice(("shift", "keep_umax", "keep_umin"))
+            if how == "shift":
+                Ub = [x + F(1, 2) for x in Ub]
+            elif how == "keep_umax":
+                Ub = [Ub[-1] - (Ub[-1] - x) / 2 for x in Ub]
+            else:
+                Ub = [Ub[0] + (x - Ub[0]) / 2 for x in Ub]
+            B["U"] = fsl(Ub)
+            # every operator must refuse operands on different intervals
+            for op2 in ("add", "sub", "mul", "div") + (("matmul",) if not A["scalar"] and not B["scalar"] else ()):
+                cases.append({"k": "cc", "A": A, "B": B, "op": op2, "kind": kind + "-" + how, "shared": shared})
+            continue
         cases.append({"k": "cc", "A": A, "B": B, "op": op, "kind": kind, "shared": shared})
     # rational operands with IDENTICAL weight tuples on DIFFERENT knot vectors (same number of control points)
     for i in range(12 if tier == "quick" else 150):
